@@ -7,6 +7,9 @@ def run(ctx):
     rnd = random.Random(ctx.seed * 10 + 1)
     n = 900 if ctx.quick() else 8000
     pairs = [ec.gen_deps_pair(rnd, 'C10_p%d' % i, wf_reads=(i % 3 != 0)) for i in range(n)]
+    for i in range(60):
+        a = ec.motif_deps_swap(rnd, 'C10_swap%d_disc' % i)
+        pairs.append((a, a.transformed('C10_swap%d_decl' % i, engine.inline_deps, manifest_on_sethidden=True)))
     known = {k.get('id') for k in ctx.known_list if k.get('property') == 'C10'}
     hists = [x for p in pairs for x in p]
     rc, tr, err, out = ec.run_hists(hists)
